@@ -13,6 +13,7 @@ import (
 	"verif/internal/gen"
 	"verif/internal/mon"
 	"verif/internal/prng"
+	"verif/internal/refcodec"
 )
 
 // C07 — script execution is total: every Execute call returns success or an
@@ -129,6 +130,84 @@ func c07Options(in *c07Input) []interpreter.ExecutionOptionFunc {
 	return o
 }
 
+// c07Seq: one transaction object that its owner keeps editing (inputs and
+// outputs added and removed, scripts replaced) between executions on ONE
+// engine, every execution reaching a signature check.
+type c07Seq struct {
+	Seed  uint64 `json:"seed"`
+	Steps int    `json:"steps"`
+	Flags uint32 `json:"flags"`
+}
+
+func c07JudgeSeq(c *mon.Ctx, in *c07Seq) {
+	r := prng.New(in.Seed, "C07-seq", 0)
+	e := theEngine(c)
+	sig := func() *bscript.Script {
+		ht := prng.Pick(r, []byte{0x01, 0x41, 0x03, 0xc2})
+		return bscript.NewFromBytes(gen.Push([]byte{0x30, 0x06, 0x02, 0x01, 0x01, 0x02, 0x01, byte(1 + r.Intn(100)), ht}))
+	}
+	lock := bscript.NewFromBytes(append(gen.Push(c07KeyG), 0xac))
+	multi := bscript.NewFromBytes(append(append(append([]byte{0x51}, gen.Push(c07KeyG)...), gen.Push(c07Key2G)...), 0x52, 0xae))
+	newIn := func() *bt.Input {
+		inp := &bt.Input{PreviousTxOutIndex: uint32(r.Intn(4)), SequenceNumber: gen.U32(r), UnlockingScript: sig()}
+		_ = inp.PreviousTxIDAdd(r.Bytes(32))
+		return inp
+	}
+	tx := &bt.Tx{Version: 1}
+	tx.Inputs = append(tx.Inputs, newIn())
+	tx.Outputs = append(tx.Outputs, &bt.Output{Satoshis: 1, LockingScript: bscript.NewFromBytes([]byte{0x51})})
+	for k := 0; k < in.Steps; k++ {
+		c.Eval(1)
+		step := "execute"
+		if k > 0 {
+			switch r.Intn(7) {
+			case 0, 1:
+				step = "input-appended"
+				tx.Inputs = append(tx.Inputs, newIn())
+			case 2:
+				step = "input-removed"
+				if len(tx.Inputs) > 1 {
+					tx.Inputs = tx.Inputs[1:]
+				}
+			case 3:
+				step = "output-appended"
+				tx.Outputs = append(tx.Outputs, &bt.Output{Satoshis: uint64(r.Intn(1000)), LockingScript: bscript.NewFromBytes(r.Bytes(1 + r.Intn(30)))})
+			case 4:
+				step = "outputs-removed"
+				tx.Outputs = nil
+			case 5:
+				step = "unlocking-script-replaced"
+				tx.Inputs[r.Intn(len(tx.Inputs))].UnlockingScript = sig()
+			default:
+				step = "locktime-changed"
+				tx.LockTime = gen.U32(r)
+			}
+		}
+		idx := len(tx.Inputs) - 1 // the newest input
+		if r.Chance(1, 3) {
+			idx = r.Intn(len(tx.Inputs))
+		}
+		l := lock
+		if r.Chance(1, 3) {
+			l = multi
+			u := append([]byte{0x00}, *tx.Inputs[idx].UnlockingScript...)
+			tx.Inputs[idx].UnlockingScript = bscript.NewFromBytes(u)
+		}
+		var err error
+		if !c.Try("interpreter.Engine.Execute[same-tx-edited:"+step+"]", func() {
+			err = e.Execute(interpreter.WithTx(tx, idx, &bt.Output{Satoshis: uint64(1 + r.Intn(5000)), LockingScript: l}), interpreter.WithFlags(scriptflag.Flag(in.Flags)))
+		}) {
+			c.Count("C07:panicked:same-tx-edited")
+			return
+		}
+		c.Count("seq:step:" + step)
+		if err == nil {
+			c.Count("result:success")
+		}
+		c.Distinct(prng.HashBytes([]byte("seq"), []byte{byte(k), byte(in.Seed), byte(in.Seed >> 8), byte(in.Seed >> 16), byte(in.Seed >> 24)}))
+	}
+}
+
 func c07Judge(c *mon.Ctx, in *c07Input) {
 	if resourceHog(in.Unlock, in.Lock, in.Flags, in.Ctx) {
 		c.Count("C07:skipped:element-above-4MiB-by-node-rules")
@@ -200,6 +279,7 @@ func init() {
 			"children run with a 24 GiB address-space limit; a Go fatal error (out of memory, stack overflow) kills only the child and is reported as a violation after confirmation"},
 	}
 	judge := mon.Kind(p, "exec", c07Judge)
+	seqk := mon.Kind(p, "tx-sequence", c07JudgeSeq)
 	p.Run = func(c *mon.Ctx) {
 		vs := loadVectors(c)
 		if vs == nil {
@@ -478,6 +558,47 @@ func init() {
 							judge(c, &c07Input{Unlock: m.u, Lock: l, Flags: fl, Mode: c07Modes[int(n/2)%len(c07Modes)], Dbg: []string{"none", "recording"}[n%2], Ctx: defaultCtx(), Src: "multisig-shapes"})
 						}
 					}
+				}
+			}
+		}
+		c.Phase("wide-pushes-in-script-code") // keys and data pushed with OP_PUSHDATA1/2/4 in front of an executed signature check (the script code is rebuilt from the parsed form)
+		n = 0
+		{
+			sig := func(ht byte) []byte { return gen.Push([]byte{0x30, 0x06, 0x02, 0x01, 0x01, 0x02, 0x01, 0x01, ht}) }
+			wide := func(form byte, d []byte) []byte { e, _ := refcodec.PushWith(form, d); return e }
+			blob := bytesOf(0x37, 300)
+			for _, form := range []byte{0x4c, 0x4d, 0x4e} {
+				for _, ht := range []byte{0x01, 0x41} {
+					progs := [][2][]byte{
+						{sig(ht), append(wide(form, c07KeyG), 0xac)},
+						{sig(ht), append(append(append(append(wide(form, blob[:200]), 0x75), wide(form, blob[:250])...), 0x75), append(gen.Push(c07KeyG), 0xac)...)},
+						{append([]byte{0x00}, sig(ht)...), append(append(append([]byte{0x51}, wide(form, c07KeyG)...), wide(form, c07Key2G)...), 0x52, 0xae)},
+						{append(sig(ht), wide(form, c07KeyG)...), []byte{0xac}},
+						{sig(ht), append(append(wide(form, c07KeyG), 0xad), append(wide(form, []byte{1}), 0x69, 0x51)...)},
+					}
+					for _, pg := range progs {
+						for _, m := range []string{"tx", "tx+scripts"} {
+							for _, fl := range []uint32{0, uint32(scriptflag.EnableSighashForkID | scriptflag.UTXOAfterGenesis), uint32(scriptflag.VerifyMinimalData)} {
+								n++
+								if c.Case(n) {
+									judge(c, &c07Input{Unlock: pg[0], Lock: pg[1], Flags: fl, Mode: m, Dbg: "none", Ctx: defaultCtx(), Src: "wide-pushes-in-script-code"})
+								}
+							}
+						}
+					}
+				}
+			}
+		}
+		c.Phase("same-tx-edited-between-executions") // one transaction object, edited by its owner between executions on one engine
+		{
+			ns := uint64(400)
+			if c.Thorough {
+				ns = 20000
+			}
+			for i := uint64(0); i < ns; i++ {
+				if c.Case(i) {
+					fl := []uint32{0, uint32(scriptflag.EnableSighashForkID | scriptflag.UTXOAfterGenesis), uint32(scriptflag.VerifyStrictEncoding)}[i%3]
+					seqk(c, &c07Seq{Seed: c.Rand(i).Uint64(), Steps: 6, Flags: fl})
 				}
 			}
 		}
